@@ -27,7 +27,7 @@ CHUNK = 12
 WORLD_CAP_S = 60
 REAL_COMPONENTS = ['scripts/mibdump.py', 'scripts/mibcopy.py', 'MibCompiler + parser + JsonCodeGen/PySnmpCodeGen/NullCodeGen', 'FileReader, file searchers, file borrowers, FileWriter/PyFileWriter',
                    'shutil.copy / os.walk (interposed)']
-STUB_COMPONENTS = ['network (partitioned: any socket creation fails and is counted)', 'directory visiting order (seeded permutation)', 'writer / copy faults (errno)', 'clock and host identity']
+STUB_COMPONENTS = ['LALR table generation in 80 % of the worlds (PLY loads tables it wrote once per process)', 'network (partitioned: any socket creation fails and is counted)', 'directory visiting order (seeded permutation)', 'writer / copy faults (errno)', 'clock and host identity']
 RULE = ('mibdump: generated on-disk module sets (healthy, missing, broken members, files named unlike their module) x format {json, pysnmp, null} x option subsets x destination state, '
         'usage errors, writer faults; mibcopy: source trees with several copies of a module under arbitrary file names with different/equal/no REVISION, destination empty or pre-populated, '
         '3 visiting orders per world, copy faults. distinct = distinct (tool, format, options, exit code, status multiset, fault kinds, revision pattern); non-trivial = all')
@@ -127,6 +127,20 @@ def gen_mibdump(rng, tier):
         # one store operation fails: the k-th temp file / write / rename of the run
         scn['faults'] = [{'op': 0, 'site': rng.choice(['mkstemp', 'os.write', 'os.rename', 'os.close']), 'nth': rng.choice([0, 0, 1, 2, 3]),
                           'action': 'errno', 'arg': rng.choice(['ENOSPC', 'EIO', 'EACCES'])}]
+    if rng.random() < 0.1 and len(names) >= 2 and not scn.get('usage'):
+        # the shape in which report, exit code and directory are easiest to get out of step: one module is broken and
+        # replaced by a borrowed copy, another is compiled, and one store operation of the run fails (errors not ignored)
+        bad = rng.choice(names)
+        specs[bad]['variant'] = rng.choice(['lex', 'syntax', 'cut', 'dupsym', 'badref'])
+        fnames[bad] = bad
+        scn['borrow'] = sorted(set(scn.get('borrow', [])) | set([bad]))
+        scn['flags'] = [f for f in flags if f not in ('--ignore-errors', '--dry-run', '--no-mib-writes', '--no-dependencies')]
+        scn['requested'] = sorted(set(req) | set(names))
+        scn.pop('rate', None)
+        scn.pop('stubs', None)
+        scn['dest'] = rng.choice(['missing', 'empty'])
+        scn['faults'] = [{'op': 0, 'site': rng.choice(['mkstemp', 'os.write', 'os.rename', 'os.close']), 'nth': rng.choice([0, 1, 1, 2, 2, 3, 4]),
+                          'action': 'errno', 'arg': rng.choice(['ENOSPC', 'EIO', 'EACCES', 'ESTALE'])}]
     return scn
 
 
@@ -517,11 +531,22 @@ def run_mibcopy(scn):
 
 # ==========================================================================
 def run(scn):
+    if scn.get('fast_tables'):
+        # the scripts build a parser per run (mibcopy: per file); in these worlds PLY loads the LALR tables it wrote
+        # once per process instead of recomputing them (an installation with a readable table module)
+        from verif.engines.history_sim import fast_tables
+        with fast_tables():
+            out = run_mibdump(scn) if scn['tool'] == 'mibdump' else run_mibcopy(scn)
+        out.setdefault('probes', {})['parser-tables-loaded-not-recomputed'] = 1
+        return out
     return run_mibdump(scn) if scn['tool'] == 'mibdump' else run_mibcopy(scn)
 
 
 def generate(rng, tier):
-    return gen_mibdump(rng, tier) if rng.random() < 0.6 else gen_mibcopy(rng, tier)
+    scn = gen_mibdump(rng, tier) if rng.random() < 0.6 else gen_mibcopy(rng, tier)
+    if rng.random() < 0.8:
+        scn['fast_tables'] = True
+    return scn
 
 
 def shrink(scn):
@@ -533,7 +558,7 @@ def shrink(scn):
         s = copy.deepcopy(scn)
         s.pop('faults')
         yield s
-    for k in ('index_dir', 'normalised_mtime'):
+    for k in ('index_dir', 'normalised_mtime', 'fast_tables'):
         if k in scn:
             s = copy.deepcopy(scn)
             s.pop(k)
